@@ -21,7 +21,8 @@ ClosureNode(T, M, j) ==
       tk == [t |-> "D", k |-> n.k, p |-> n.p, a |-> n.a, e |-> (n.e \/ j \in M), b |-> n.b, c |-> n.c]
   IN <<tk>> \o ClosureList(T, M, ks, 1) \o (IF tk.e THEN <<CloseTok>> ELSE <<>>)
 ClosureList(T, M, js, i) == IF i > Len(js) THEN <<>> ELSE ClosureNode(T, M, js[i]) \o ClosureList(T, M, js, i + 1)
-CanOpen(T) == {j \in 1..Len(T.nodes) : Kids(T, j) # <<>> /\ T.nodes[j].k \notin NoExplicit /\ ~T.nodes[j].e}
+\* directives with children, and directives that only carry a body (the '( )' then frames the body)
+CanOpen(T) == {j \in 1..Len(T.nodes) : (Kids(T, j) # <<>> \/ T.nodes[j].b # "") /\ T.nodes[j].k \notin NoExplicit /\ ~T.nodes[j].e}
 \* the full closure first, then every single directive made explicit on its own (an explicit context next to implicit siblings)
 RECURSIVE Singles(_, _)
 Singles(T, j) == IF j > Len(T.nodes) THEN <<>> ELSE (IF j \in CanOpen(T) THEN <<{j}>> ELSE <<>>) \o Singles(T, j + 1)
